@@ -202,6 +202,19 @@ func (ex *Exec) toGo(v Value) (interface{}, bool) {
 	return nil, false
 }
 
+func (ex *Exec) methodByName(t types.Type, name string) *ssaFunction {
+	ms := ex.prog.MethodSets.MethodSet(t)
+	for i := 0; i < ms.Len(); i++ {
+		if ms.At(i).Obj().Name() == name {
+			fn := ex.prog.MethodValue(ms.At(i))
+			if fn != nil && fn.Blocks != nil {
+				return fn
+			}
+		}
+	}
+	return nil
+}
+
 func (ex *Exec) sliceElems(v Value) []Value {
 	s := v.(SliceV)
 	out := make([]Value, s.len)
@@ -241,6 +254,19 @@ func (ex *Exec) sprintf(args []Value) Value {
 					if sv, isS := iv.v.(*StrV); isS {
 						out = ex.strConcat(out, sv)
 						continue
+					}
+					if iv.t != nil {
+						// error / Stringer values: call their method like fmt does
+						if m := ex.methodByName(iv.t, "Error"); m != nil {
+							out = ex.strConcat(out, ex.callSSA(ex.curFrame, m, []Value{iv.v}, nil).(*StrV))
+							continue
+						}
+						if m := ex.methodByName(iv.t, "String"); m != nil && m.Signature.Params().Len() == 0 && m.Signature.Results().Len() == 1 {
+							if sv, ok := ex.callSSA(ex.curFrame, m, []Value{iv.v}, nil).(*StrV); ok {
+								out = ex.strConcat(out, sv)
+								continue
+							}
+						}
 					}
 					if g, ok2 := ex.toGo(iv); ok2 {
 						out = ex.strConcat(out, ex.cstr(fmt.Sprintf("%"+string(verb), g)))
@@ -463,6 +489,25 @@ func (ex *Exec) initIntrinsics() {
 		}
 		ex.call(fr, &FuncV{fn: wm}, []Value{w.v, bs}, nil)
 		return IfaceV{}
+	}
+	// go/printer used directly (not through go/format) is a different uninterpreted function: it writes
+	// the tag "PRN<k>;" - contract PC is about format.Node (gofmt normalisation: import sorting, literal
+	// normalisation), which a bare printer.Config does not perform
+	in["(*go/printer.Config).Fprint"] = func(ex *Exec, fr *Frame, a []Value) Value {
+		k := ex.formatCalls
+		ex.formatCalls++
+		w := a[1].(IfaceV)
+		data := ex.cstr(fmt.Sprintf("PRN%d;", k))
+		bs := ex.convert(types.Typ[types.String], types.NewSlice(types.Typ[types.Uint8]), data)
+		wm := ex.methodByName(w.t, "Write")
+		if wm == nil {
+			ex.unsupported("printer.Fprint: writer without Write method")
+		}
+		ex.call(fr, &FuncV{fn: wm}, []Value{w.v, bs}, nil)
+		return IfaceV{}
+	}
+	in["go/printer.Fprint"] = func(ex *Exec, fr *Frame, a []Value) Value {
+		return ex.intr["(*go/printer.Config).Fprint"](ex, fr, append([]Value{nil}, a...))
 	}
 	in["vf:vfPrintOf"] = func(ex *Exec, fr *Frame, a []Value) Value {
 		return ex.cstr(fmt.Sprintf("AST%d;", ex.concInt(a[0], "vfPrintOf k")))
